@@ -15,7 +15,7 @@ LEVEL_TEXT = ("The headline (numeric soundness of every transfer function for ev
 ASSUMPTIONS = ["scalar operations are sound (C08)", "closure / constraint-propagation algorithms of the relational domains are correct (not decided)"]
 
 OUT_OF_FRAGMENT = {k: "kills the lhs through vertex / term-table bookkeeping the rule does not model"
-                   for k in ("split_dbm_domain", "sparse_dbm_domain", "split_oct_domain", "term_domain", "uf_domain")}
+                   for k in ()}
 
 
 def r1_lhs_kill(ctx):
